@@ -14,8 +14,10 @@ Import ListNotations.
    invocation's thinker with ANY move (Answer: instantly, late, legal or not), returns of thinkers of
    earlier invocations (Late: their context is cancelled, their channel dead) and expiries of the 500 ms
    grace timer — during which the server keeps its contract (env_ok: it sends only moves legal in its own
-   history, Undo only after the bot accepted and only when there is a move to take back, and no malformed
-   line), the joint run of loop and server exists and afterwards
+   history; it performs an accepted undo at once, a move transmitted while the Undo line is outstanding is
+   refused; the Undo line comes only after an acceptance with a move to take back, and then before any other
+   move / undo-request line and before the grace timer of an earlier move line acts; no malformed line),
+   the joint run of loop and server exists and afterwards
      - the bot's Positions and Moves equal the server's authoritative history (as communicated),
      - every move the bot transmitted was computed for exactly the position current when it was sent,
        was sent on the bot's own turn and is legal there (sent_ok), and the server refused none (noks = 0),
@@ -42,6 +44,24 @@ Theorem C07_bot_sends_only_current :
   Forall (sent_ok pos move apply bots_turn) (out _ _ (run pos move apply bots_turn over start true accept_undo evs)).
 Proof. exact bot_sends_only_current. Qed.
 Print Assumptions C07_bot_sends_only_current.
+
+(* "The AI's answer lands while the loop is handling a line": an answer already queued in the buffered channel
+   when the loop handles a P/M line, or accepts an undo request (i.e. it arrived after the line was taken and
+   before that branch's moveCancel()), is never read: whatever move it is, nothing is transmitted and the record
+   does not change.  (In event-list terms this interleaving is `Line l; Answer a`, so both theorems above cover
+   it; this states the local fact.) *)
+Theorem C07_queued_answer_ignored :
+  forall (pos move : Type) (apply : pos -> move -> option pos) (bots_turn over : pos -> bool) (start : pos)
+         (accept_undo : bool) (s : state pos move) (m a : move),
+  (let s1 := step pos move apply bots_turn over start true accept_undo s (Line _ (LMove _ m)) in
+   let s2 := step pos move apply bots_turn over start true accept_undo s1 (Answer _ a) in
+   out _ _ s2 = out _ _ s1 /\ moves _ _ s2 = moves _ _ s1 /\ hist _ _ s2 = hist _ _ s1) /\
+  (accept_undo = true ->
+   let s1 := step pos move apply bots_turn over start true accept_undo s (Line _ (LReqUndo _)) in
+   let s2 := step pos move apply bots_turn over start true accept_undo s1 (Answer _ a) in
+   out _ _ s2 = out _ _ s1 /\ moves _ _ s2 = moves _ _ s1 /\ hist _ _ s2 = hist _ _ s1).
+Proof. exact queued_answer_ignored. Qed.
+Print Assumptions C07_queued_answer_ignored.
 
 (* The pinned loop (fixed = false: `moves` stays non-nil when a P/M line changes the position) violates the
    send clause: on resume, two replayed moves arrive, then the thinker started on ply 0 answers, and its
